@@ -142,6 +142,13 @@ func (pc *virtualPacketConn) ReadFrom(p []byte) (int, net.Addr, error) {
 		err  error
 	}, 1)
 
+	// A closed connection must not compete for incoming packets with the open ones.
+	select {
+	case <-pc.closeCh:
+		return 0, nil, net.ErrClosed
+	default:
+	}
+
 	select {
 	case pc.readCh <- readRequest{
 		buffer: p,
